@@ -41,3 +41,19 @@ div_exact = Lemma(
 div_eq = Lemma(
     "div_eq", lambda x, b, y: Implies(And(b > 0, x == b * y), x / b == y),
     "lean:Batchie.div_eq", "b>0 & x = b*y -> x div b = y")
+
+from pyvc.lib.arrays import rank as _rank
+
+
+def _scatter_count(m, n, ix, k):
+    j, j2, p = z3.Int("j!scn"), z3.Int("j2!scn"), z3.Int("p!scn")
+    return Implies(And(k >= 0,
+                       z3.ForAll([j], Implies(And(j >= 0, j < k), And(z3.Select(ix, j) >= 0, z3.Select(ix, j) < n))),
+                       z3.ForAll([j, j2], Implies(And(j >= 0, j < j2, j2 < k), z3.Select(ix, j) != z3.Select(ix, j2))),
+                       z3.ForAll([p], Implies(And(p >= 0, p < n), z3.Select(m, p) == z3.Exists([j], And(j >= 0, j < k, z3.Select(ix, j) == p))))),
+                   _rank(m, n) == k)
+
+
+scatter_count = Lemma("scatter_count", _scatter_count, "lean:Batchie.scatter_count",
+                      "k pairwise distinct positions ix[0..k) below n, m[p] <=> p is one of them  ->  rank(m,n) = k   "
+                      "(rank(m,n) read as the cardinality of {p<n | m[p]})")
